@@ -4,7 +4,7 @@
 # existing suite still passes with it, the demo fails with it. Then runs the check of <ID> against it and
 # stores everything under /verif/seeded/<ID>-<name>/.
 set -u
-ID=$1; MD=$2; NAME=$3
+ID=$1; MD=$2; NAME=$3; FORCEDIR=${4:-}
 export GOFLAGS=-mod=mod GOPROXY=off GOSUMDB=off GOTOOLCHAIN=local
 OUT=/verif/seeded/$ID-$NAME
 WT=$(mktemp -d /tmp/seedv.XXXXXX)
@@ -20,6 +20,7 @@ for tok in $(head -12 "$demo" | tr -c 'A-Za-z0-9_./-' ' '); do
   case "$t" in *..*) continue;; esac
   if [ -n "$t" ] && [ "$t" != "." ] && [ -d "$WT/$t" ] && ls "$WT/$t"/*.go >/dev/null 2>&1; then dir=$t; break; fi
 done
+[ -n "$FORCEDIR" ] && dir=$FORCEDIR
 if [ -z "$dir" ]; then
   base=${pkgname%_test}
   if [ "$base" = "notation" ]; then dir="."; else dir=$(cd "$WT" && grep -rl --include=*.go "^package $base\$" . | grep -v _test.go | head -1 | xargs dirname | sed 's#^\./##'); fi
